@@ -1180,6 +1180,47 @@ impl KeyWorld {
         Ok(())
     }
 
+    /// Giant build: n keys 0, 2, 4, ... in ascending or descending order, all "never" expiring,
+    /// inserted in chunks (one guarded call per chunk); the reference map is built in bulk.
+    fn do_bulk(&mut self, n: i32, pat: u8, ctx: &mut RunCtx) -> Result<(), Stop> {
+        let cfg = self.cfg.clone();
+        let t = self.now;
+        let exp = self.tmax;
+        let first_id = self.next_id;
+        self.next_id += n as u32;
+        ctx.stats.bump("bulk.giant_tree_built");
+        let key_of = |i: i32| -> i32 { if pat == 0 { 2 * i } else { 2 * (n - 1 - i) } };
+        for ci in 0..self.colls.len() {
+            let name = self.names[ci];
+            let c = match self.colls[ci].as_mut() {
+                Some(c) => c,
+                None => continue,
+            };
+            let mut cb_total = 0u32;
+            let mut i0 = 0i32;
+            while i0 < n {
+                let i1 = (i0 + 2000).min(n);
+                let (_, cb) = call(ctx, &cfg, name, "insert (bulk)", "KBulk", false, None, None, || {
+                    for i in i0..i1 {
+                        let id = first_id + i as u32;
+                        c.insert(SimKey { key: key_of(i), exp, id }, id as i64, t);
+                    }
+                })?;
+                cb_total = cb_total.saturating_add(cb);
+                i0 = i1;
+            }
+            if ci == 0 {
+                ctx.cb_counts.push(cb_total);
+            }
+        }
+        let mut pairs: Vec<(i32, MEnt)> = (0..n).map(|i| (key_of(i), MEnt { exp, val: (first_id + i as u32) as i64, id: first_id + i as u32 })).collect();
+        if pat != 0 {
+            pairs.reverse();
+        }
+        self.model = pairs.into_iter().collect();
+        Ok(())
+    }
+
     fn do_clear(&mut self, restart: i32, ctx: &mut RunCtx) -> Result<(), Stop> {
         let cfg = self.cfg.clone();
         let had_expired = self.colls.iter().flatten().any(|c| c.stored().iter().any(|k| k.exp <= self.now));
@@ -1435,6 +1476,7 @@ impl World for KeyWorld {
             Op::KLeqBy { fl, .. } => *fl <= 2,
             Op::KClear { .. } => true,
             Op::KExport { dt } => *dt >= 0,
+            Op::KBulk { n, pat } => self.model.is_empty() && !self.cleared_once && *n > 0 && *pat <= 1 && self.now < self.tmax && self.colls.iter().flatten().all(|c| c.snapshot().is_some()),
             _ => false,
         }
     }
@@ -1485,6 +1527,10 @@ impl World for KeyWorld {
             Op::KClear { restart } => {
                 self.do_clear(restart, ctx)?;
                 self.post_structure(ctx, "KClear")?;
+            }
+            Op::KBulk { n, pat } => {
+                self.do_bulk(n, pat, ctx)?;
+                self.post_structure(ctx, "KBulk")?;
             }
             Op::KExport { dt } => {
                 self.do_export(step, dt, ctx)?;
